@@ -1,4 +1,5 @@
 import TunnelModel.LFrame.Server
+import Proofs.Props.C15
 import Proofs.Lemmas.Registry
 /-!
   C10 — graceful shutdown refuses new RPCs and lets in-flight ones finish
@@ -107,5 +108,13 @@ open TunnelModel.Lifecycle Proofs.Registry in
 theorem C10_isClosing_after_stop (ops : List SOp) (s : RServer) :
     (ops.foldl stepSrv s.gracefulStop).isClosing = true ∧ (ops.foldl stepSrv s.stop).isClosing = true :=
   ⟨C10_isClosing_sticky ops _ (isClosing_gracefulStop s), C10_isClosing_sticky ops _ (isClosing_stop s)⟩
+
+/-- code-level premise (regenerated from the sources on every run): `Stop` and
+    `GracefulStop` do not hold the server's mutex while they wait for the
+    `Serve` calls to return, so the tunnels can go on asking `isClosing()` —
+    refusing new RPCs and letting in-flight ones finish — during the drain -/
+theorem C10_waits_hold_no_lock :
+    Proofs.C15.lockedWaitViolations TunnelModel.Generated.accessTable = [] :=
+  Proofs.C15.C15_waits_hold_no_lock
 
 end Proofs.C10
